@@ -368,7 +368,23 @@ def b_type(it, args, kw, fr):
 
 def b_getattr(it, args, kw, fr):
     o = it.force(args[0])
-    nm = it.concrete(args[1])
+    nm = it.concrete(it.force(args[1]))
+    if nm is _NOCONST and isinstance(o, VObj) and isinstance(it.force(args[1]), VStr):
+        # symbolic attribute name: one path per attribute of the class it can equal
+        namez = it.force(args[1]).z
+        cands = list(o.fields)
+        cd = it.reg.repo_classes.get(o.cls)
+        n = 0
+        while cd is not None and n < 8:
+            cands += list(cd.methods)
+            cd = it.base_classdef(cd)
+            n += 1
+        for c in dict.fromkeys(cands):
+            if it.ctx.branch(namez == z3.StringVal(c), f"getattr=={c}"):
+                return it.getattr(o, c)
+        if len(args) > 2:
+            return args[2]
+        it.raise_("AttributeError", VStr("no such attribute"))
     if nm is _NOCONST:
         raise OutOfSubset("getattr with symbolic name")
     if isinstance(o, VObj):
@@ -974,6 +990,10 @@ def m_map(it, m, meth, args, kwargs):
         return VMap(m.present, m.val, m.kt, m.vt)
     if meth == "keys":
         return VSet(m.present, m.kt)
+    if meth == "items":
+        r = VSet(m.present, m.kt)
+        r.items_of = m
+        return r
     raise OutOfSubset(f"map method {meth}")
 
 
